@@ -210,6 +210,7 @@ def table() -> dict[str, Prop]:
     from .rules import bnd_rules as BN2
     props["C01"].rules.append(BN2.rule_tokbnd)         # token / delimiter list subscripts are in range
     props["C20"].rules.append(LP.rule_loopvar)
+    props["C17"].rules.append(FR.rule_spacetab)        # block-rule regexes accept tab wherever they accept space
     props["C02"].rules.append(TK.rule_move)            # a token is moved only across closers of its own pair
     props["C04"].rules.append(TK.rule_move)
     from .rules import partial_rules as PT
